@@ -824,15 +824,11 @@ class Extractor:
 class _Scope:
     def __init__(self, ex, f, param, where, rel, cls, env):
         self.ex, self.f, self.param, self.where, self.rel, self.cls = ex, f, param, where, rel, cls
-        assigned = set()
-        for n in ast.walk(f):
-            if isinstance(n, (ast.Assign, ast.AugAssign, ast.AnnAssign, ast.For, ast.comprehension, ast.NamedExpr)):
-                tg = n.targets if isinstance(n, ast.Assign) else [getattr(n, "target", None)]
-                for t in tg:
-                    for m in ast.walk(t) if t is not None else []:
-                        if isinstance(m, ast.Name):
-                            assigned.add(m.id)
-        self.known = {k: v for k, v in (env or {}).items() if k not in assigned}
+        # constants known for parameters / local names, FLOW-SENSITIVELY: an assignment updates the knowledge from
+        # that point on (constant -> that constant; tuple / list / instance of a class of the code base -> "not a
+        # string, not None"; anything else -> unknown), branches are joined, names assigned in a loop or in the
+        # enclosing function of a closure are unknown inside it
+        self.known = dict(env or {})
         self.vars = {}          # generator-related names -> variable number (0 = the random_state argument)
         self.kwname = f.args.kwarg.arg if f.args.kwarg is not None else None
         if param in SEED_PARAMS:
@@ -887,9 +883,49 @@ class _Scope:
     def block(self, stmts):
         return seq([self.stmt(s) for s in stmts])
 
+    @staticmethod
+    def assigned_in(nodes):
+        out = set()
+        for root in nodes:
+            for n in ast.walk(root):
+                tg = []
+                if isinstance(n, ast.Assign):
+                    tg = n.targets
+                elif isinstance(n, (ast.AugAssign, ast.AnnAssign, ast.For, ast.AsyncFor, ast.comprehension, ast.NamedExpr)):
+                    tg = [n.target]
+                elif isinstance(n, (ast.With, ast.AsyncWith)):
+                    tg = [i.optional_vars for i in n.items if i.optional_vars is not None]
+                elif isinstance(n, ast.ExceptHandler) and n.name:
+                    out.add(n.name)
+                elif isinstance(n, (ast.Import, ast.ImportFrom)):
+                    out.update((a.asname or a.name).split(".")[0] for a in n.names)
+                elif isinstance(n, (ast.FunctionDef, ast.ClassDef)):
+                    out.add(n.name)
+                for t in tg:
+                    for m in ast.walk(t):
+                        if isinstance(m, ast.Name):
+                            out.add(m.id)
+        return out
+
+    def forget(self, names):
+        for n in names:
+            self.known.pop(n, None)
+
+    @staticmethod
+    def join_known(a, b):
+        return {k: v for k, v in a.items() if k in b and (b[k] is v or (type(b[k]) is type(v) and b[k] == v))}
+
     def stmt(self, s):
         if isinstance(s, (ast.FunctionDef, ast.AsyncFunctionDef)):
-            return self.block(s.body)            # local closure: inlined where it is defined
+            # local closure: inlined where it is defined; it may run later, when the names the enclosing function
+            # assigns have other values
+            saved = dict(self.known)
+            self.forget(self.assigned_in([self.f]) | self.assigned_in([s]) |
+                        {a.arg for a in s.args.posonlyargs + s.args.args + s.args.kwonlyargs} |
+                        {a.arg for a in (s.args.vararg, s.args.kwarg) if a is not None})
+            out = self.block(s.body)
+            self.known = saved
+            return out
         if isinstance(s, ast.ClassDef):
             return "PSkip"
         if isinstance(s, ast.If):
@@ -898,21 +934,64 @@ class _Scope:
                 return seq([self.expr(s.test), self.block(s.body)])
             if t is False:
                 return seq([self.expr(s.test), self.block(s.orelse)])
-            return seq([self.expr(s.test), branch(self.block(s.body), self.block(s.orelse))])
-        if isinstance(s, (ast.For, ast.AsyncFor)):
-            return seq([self.expr(s.iter), loop(self.block(s.body)), self.block(s.orelse)])
-        if isinstance(s, ast.While):
-            return seq([loop(seq([self.expr(s.test), self.block(s.body)])), self.block(s.orelse)])
+            ev = self.expr(s.test)
+            k0 = dict(self.known)
+            a = self.block(s.body)
+            k1 = self.known
+            self.known = dict(k0)
+            b = self.block(s.orelse)
+            self.known = self.join_known(k1, self.known)
+            return seq([ev, branch(a, b)])
+        if isinstance(s, (ast.For, ast.AsyncFor, ast.While)):
+            self.forget(self.assigned_in([s]))
+            if isinstance(s, ast.While):
+                out = seq([loop(seq([self.expr(s.test), self.block(s.body)])), self.block(s.orelse)])
+            else:
+                out = seq([self.expr(s.iter), loop(self.block(s.body)), self.block(s.orelse)])
+            self.forget(self.assigned_in([s]))
+            return out
         if isinstance(s, (ast.With, ast.AsyncWith)):
-            return seq([self.expr(i.context_expr) for i in s.items] + [self.block(s.body)])
+            ev = [self.expr(i.context_expr) for i in s.items]
+            self.forget(self.assigned_in([i.optional_vars for i in s.items if i.optional_vars is not None]))
+            return seq(ev + [self.block(s.body)])
         if isinstance(s, ast.Try):
-            return seq([self.block(s.body)] + [branch(self.block(h.body), "PSkip") for h in s.handlers] + [self.block(s.orelse), self.block(s.finalbody)])
+            self.forget(self.assigned_in([s]))
+            out = seq([self.block(s.body)] + [branch(self.block(h.body), "PSkip") for h in s.handlers] + [self.block(s.orelse), self.block(s.finalbody)])
+            self.forget(self.assigned_in([s]))
+            return out
         if isinstance(s, ast.Assign) and len(s.targets) == 1:
-            return self.assign(s.targets[0], s.value)
+            out = self.assign(s.targets[0], s.value)
+            self.learn(s.targets[0], s.value)
+            return out
         if isinstance(s, ast.AnnAssign) and s.value is not None:
-            return self.assign(s.target, s.value)
-        return seq([self.expr(c) for c in ast.iter_child_nodes(s) if isinstance(c, ast.expr)] +
-                   [self.stmt(c) for c in ast.iter_child_nodes(s) if isinstance(c, ast.stmt)])
+            out = self.assign(s.target, s.value)
+            self.learn(s.target, s.value)
+            return out
+        out = seq([self.expr(c) for c in ast.iter_child_nodes(s) if isinstance(c, ast.expr)] +
+                  [self.stmt(c) for c in ast.iter_child_nodes(s) if isinstance(c, ast.stmt)])
+        self.forget(self.assigned_in([s]))
+        return out
+
+    def learn(self, target, value):
+        """effect of `target = value` on what is known about constants"""
+        if not isinstance(target, ast.Name):
+            self.forget(self.assigned_in([ast.Assign(targets=[target], value=ast.Constant(value=None))]))
+            return
+        self.forget(self.assigned_in([value]))          # walrus inside the value
+        if isinstance(value, ast.Constant):
+            self.known[target.id] = value.value
+        elif isinstance(value, (ast.Tuple, ast.List, ast.Dict, ast.Set)):
+            self.known[target.id] = NOT_A_SCALAR
+        elif isinstance(value, ast.Name) and value.id in self.known:
+            self.known[target.id] = self.known[value.id]
+        elif isinstance(value, ast.Call):
+            r = self.ex.resolve_dotted(self.rel, (_dotted(value.func) or "?").split("."))
+            if isinstance(r, str) and isinstance(self.ex.defs[r][1], ast.ClassDef):
+                self.known[target.id] = NOT_A_SCALAR    # an instance of a class of the code base: not a string, not None
+            else:
+                self.known.pop(target.id, None)
+        else:
+            self.known.pop(target.id, None)
 
     def assign(self, target, value):
         """`target = value`: a binding of a generator-related name is kept as it is (PAssign / PCheck)"""
